@@ -94,18 +94,41 @@ Write truncates the WAL file and writes the new input.
   - we overwrite the file since old data is no longer needed.
 */
 func (w *Wal) Write(input any) error {
-	err := w.truncate()
-	if err != nil {
-		log.Errorf("Wal.Write: failed to truncate WAL file: %v", err)
-		return err
-	}
+	var err error
 	w.encodedBuf, err = w.prepareEncodedBlock(input)
 	if err != nil {
 		log.Errorf("Wal.Write: failed to prepare encoded block: %v", err)
 		return err
 	}
 
-	return w.writeBlockToFile()
+	// Write the new content next to the log and rename it over the log: a crash at
+	// any instant leaves either the previous content or the new one, never an empty log.
+	tmpPath := w.filePath + ".tmp"
+	tmpFd, err := os.OpenFile(tmpPath, os.O_CREATE|os.O_WRONLY|os.O_TRUNC, 0644)
+	if err != nil {
+		log.Errorf("Wal.Write: failed to open %s: %v", tmpPath, err)
+		return err
+	}
+	oldFd := w.fd
+	w.fd = tmpFd
+	_, err = w.fd.Write(sutils.VERSION_WALFILE)
+	if err == nil {
+		err = w.writeBlockToFile()
+	}
+	if err == nil {
+		err = os.Rename(tmpPath, w.filePath)
+	}
+	if err != nil {
+		log.Errorf("Wal.Write: failed to rewrite WAL file %s: %v", w.filePath, err)
+		w.fd = oldFd
+		_ = tmpFd.Close()
+		_ = os.Remove(tmpPath)
+		return err
+	}
+	if oldFd != nil {
+		_ = oldFd.Close()
+	}
+	return nil
 }
 
 func (w *Wal) writeBlockToFile() error {
@@ -132,26 +155,6 @@ func (w *Wal) writeBlockToFile() error {
 	}
 
 	w.encodedSize += uint64(Uint32Size + blockSize) // Adding 4-byte UINT32 (blockSize field) size to encodedSize, excluded from blockSize.
-	return err
-}
-
-func (w *Wal) truncate() error {
-	err := w.fd.Truncate(0)
-	if err != nil {
-		log.Errorf("Wal.truncate: failed to truncate file: %v", err)
-		return err
-	}
-	_, err = w.fd.Seek(0, 0)
-	if err != nil {
-		log.Errorf("Wal.truncate: failed to seek to beginning: %v", err)
-		return err
-	}
-
-	_, err = w.fd.Write(sutils.VERSION_WALFILE)
-	if err != nil {
-		log.Errorf("Wal.truncate: failed to write WAL version: %v", err)
-		return err
-	}
 	return err
 }
 
